@@ -17,7 +17,7 @@ PROPERTY = "C17"
 LEVEL = "exploration"
 RULE = (
     "wraps: all spec tuples over a 7-spec alphabet for 1-3 parameters (thorough: 4 with a 5-spec alphabet) without dangling references x all trailing-default patterns x all positional/keyword/omitted call forms x "
-    "all argument-value tuples over {2 m, 300 cm, 5 s, bare 7} x strict {True, False}; return specs {None, 'meter', '=A', ('meter', None), ['=A', 'second']} on every 2-parameter spec tuple; declared-count "
+    "all argument-value tuples over {2 m, 300 cm, 5 s, bare 7} (1-2 parameters: plus the dimensionless spec '' / ureg.dimensionless and the scaled dimensionless value 50 %) x strict {True, False}; return specs {None, 'meter', '=A', ('meter', None), ['=A', 'second']} on every 2-parameter spec tuple; declared-count "
     "mismatches; check: all dimension-spec tuples over {None, '[length]', '[time]', '[length]/[time]', 'meter'} for 1-3 parameters x the same call forms and values. non-trivial = distinct (specs, defaults, call form, values, strict)"
 )
 ASSUMPTIONS = [
